@@ -154,3 +154,11 @@ Example C13_fresh_queues_nonvacuous :
   exists vs s1, run_stopped Full c s = (vs, Completed, s1) /\ length vs = 3 /\
                 forallb (fun w => negb (alive w)) (workers (settle Completed s1)) = true.
 Proof. repeat split. do 2 eexists. vm_compute. repeat split. Qed.
+
+(** (round 4) C13_worker_age_bounded on answers the parent cannot use (its [get] raises while loading the item / the
+    worker answered (False, message)): the worker stays in place and has aged - at rate 2 the script
+    [1 unloadable; 2 refused; 3 equal; 4 unloadable] is served by two workers, two tasks each *)
+Example C13_bad_answer_ages_worker :
+  clean_script demo_bad /\ fate demo_cfg (BBadAnswer Unloadable) = None /\
+  map (fun w => w_served w) (workers (state_after demo_cfg demo_bad)) = [[3; 4]; [1; 2]] /\ rate demo_cfg = 2.
+Proof. destruct demo_bad_run as (A & _ & _ & D & _). repeat split; assumption. Qed.
